@@ -73,13 +73,16 @@ def small_scope(focus, quick):
     return progs
 
 
-def run(ctx, focus, n_random_quick, n_random_thorough, max_actors=4, max_ops=6):
+def run(ctx, focus, n_random_quick, n_random_thorough, max_actors=4, max_ops=6, gen=None, extra=()):
     quick = ctx.quick
-    progs = list(REGRESSION) + small_scope(focus, quick)
+    progs = list(REGRESSION) + list(extra) + small_scope(focus, quick)
     n_rand = n_random_quick if quick else n_random_thorough
     for _ in range(n_rand):
-        progs.append(K.gen_sync_prog(ctx.rng, focus, max_actors=max_actors if quick else max_actors + 1,
-                                     max_ops=max_ops if quick else max_ops + 2))
+        if gen is not None:
+            progs.append(gen(ctx.rng, quick))
+        else:
+            progs.append(K.gen_sync_prog(ctx.rng, focus, max_actors=max_actors if quick else max_actors + 1,
+                                         max_ops=max_ops if quick else max_ops + 2))
     # de-duplicate
     seen = set()
     uniq = []
@@ -102,7 +105,8 @@ def run(ctx, focus, n_random_quick, n_random_thorough, max_actors=4, max_ops=6):
     r, outs = K.mc_explore(ctx, progs, timeout=600 if quick else 3000, coverage=False)
     ctx.add_tlc(r)
     ctx.cov["mc"] = {"status": r.status, "distinct": r.distinct, "generated": r.generated, "diameter": r.diameter,
-                     "wall_s": round(r.wall, 1), "properties": ["KernelInv", "ClockMonotone", "MutexFifoHandoff", "SemFifo", "CvFifo"]}
+                     "wall_s": round(r.wall, 1), "properties": ["KernelInv", "ClockMonotone", "MutexFifoHandoff", "SemFifo", "CvFifo",
+                                                                 "MailboxFifo", "MessFifo"]}
     if not r.ok:
         raise vlib.InfraError("the specification itself fails on the generated programs (%s %s): fix the spec\n%s" %
                               (r.status, r.what[:200], r.out[-3000:]))
@@ -150,7 +154,7 @@ def run(ctx, focus, n_random_quick, n_random_thorough, max_actors=4, max_ops=6):
         n_out += 1
         if any(o["end"] == "undefined" for o in outs[i]):
             continue  # the program can reach behaviour the semantics leaves undefined
-        ok = any(o["obs"] == io["obs"] and (o["end"] == io["end"] or (o["end"] == "abort" and io["end"] == "signal"))
+        ok = any(o["obs"] == io["obs"] and o["ov"] == io["ov"] and (o["end"] == io["end"] or (o["end"] == "abort" and io["end"] == "signal"))
                  for o in outs[i])
         if not ok:
             ctx.violation("outcome of the real run is not reachable in the reference semantics: %s" % json.dumps(io),
